@@ -348,8 +348,9 @@ def check(case):
             m1.compute_near_field(p, [1, 1, 1], [1, 1, 1])
             ea, eb = np.array(m0.e_field[0]), np.array(m1.e_field[0])
             ha, hb = np.array(m0.h_field[0]), np.array(m1.h_field[0])
-            de = np.linalg.norm(ea - eb) / np.linalg.norm(ea)
-            dh = np.linalg.norm(ha - hb) / np.linalg.norm(ha)
+            # (a field that vanishes by symmetry - H on the axis of a straight wire - is judged on the scale of the other)
+            de = np.linalg.norm(ea - eb) / (np.linalg.norm(ea) + 1e-6 * 376.7 * np.linalg.norm(ha) + 1e-300)
+            dh = np.linalg.norm(ha - hb) / (np.linalg.norm(ha) + 1e-6 * np.linalg.norm(ea) / 376.7 + 1e-300)
             # the program differentiates the potentials numerically over 0.001 wavelength, which amplifies the
             # (allowed) differences of the currents: three times the tolerance of the currents
             if de > 3 * tol or dh > 3 * tol:
